@@ -134,10 +134,12 @@ def check(ctx, rep):
         for e in p.calls():
             if e.d["func"] == ("class", proxy.key):
                 n += 1
-                kws = dict((k, v) for k, v in e.d["kwargs"] if k)
-                tv = kws.get("timeout") if "timeout" in kws else (e.d["args"][1] if len(e.d["args"]) > 1 else None)
+                bp = roles.bound(e, prog)
+                pnames = init.params[1:]
+                tv = bp.get("timeout")
+                fv = bp.get(pnames[0]) if pnames else None
                 good = isinstance(tv, tuple) and tv[0] == "call" and isinstance(tv[1], tuple) and tv[1][0] == "attr" and tv[1][2] in ("pop", "get") and tv[2][:1] == (("const", "timeout"),) and len(tv[2]) == 2 and tv[2][1][0] == "global" and tv[2][1][2] == "MAX_TIMEOUT"
-                good = good and e.d["args"][:1] == (("param", "f"),)
+                good = good and fv == ("param", fproxy.params[0])
                 rep.ob("R-AWAIT", "f_proxy constructs the proxy", good, "f_proxy must pass the input future and kwargs['timeout'] (default MAX_TIMEOUT) to ProxyFuture, found timeout=%s" % (fmt(tv) if tv else None), where_of(fproxy, e.node))
     rep.require(n >= 1, "f_proxy: construction of ProxyFuture not found")
 
